@@ -28,9 +28,11 @@ CANARIES = [
     ("swv-drop-dilation-fit", "c16_swv", "nnet/layers/utils.py", "            w * d > s\n", "            w > s\n", r"C16\.swv.*(returns_only_if_accepted|in_bounds)"),
     ("swv-shape-off-by-one", "c16_swv", "nnet/layers/utils.py", "(in_shape - ((window_shape - 1) * dilation + 1)) // step + 1", "(in_shape - ((window_shape - 1) * dilation)) // step + 1", r"C16\.swv.*out_shape"),
     ("swv-writeable", "c16_swv", "nnet/layers/utils.py", "strides=stride, writeable=False)", "strides=stride, writeable=True)", r"C16\.swv.*read_only"),
-    ("swv-stride-no-dilation", "c16_swv", "nnet/layers/utils.py", "    win_stride[-len(step) :] *= dilation\n", "", r"C16\.swv.*strides"),
+    ("swv-stride-no-dilation", "c16_swv", "nnet/layers/utils.py", "    win_stride[-len(step) :] *= dilation\n", "", r"C16\.swv.*element_offset\.window"),
     ("swv-window-fit-ge", "c16_swv", "nnet/layers/utils.py", "if any(i > j for i, j in zip(window_shape[::-1], arr.shape[::-1])):", "if any(i >= j for i, j in zip(window_shape[::-1], arr.shape[::-1])):", r"C16\.swv.*raises_only_if_rejected"),
-    ("swv-no-contig", "c16_swv", "nnet/layers/utils.py", "    if not arr.flags[\"C_CONTIGUOUS\"]:\n        arr = np.ascontiguousarray(arr)\n", "", r"C16\.swv.*contiguous_before_striding"),
+    ("swv-no-contig", "c16_swv", "nnet/layers/utils.py", "    if not arr.flags[\"C_CONTIGUOUS\"]:\n        arr = np.ascontiguousarray(arr)\n", "", r"C16\.swv.*element_offset"),
+    ("swv-nbyte-from-last-stride", "c16_swv", "nnet/layers/utils.py", "    nbyte = arr.itemsize  #", "    nbyte = arr.strides[-1]  #", r"C16\.swv.*element_offset"),
+    ("swv-trailing-contig-only", "c16_swv", "nnet/layers/utils.py", "    if not arr.flags[\"C_CONTIGUOUS\"]:\n        arr = np.ascontiguousarray(arr)\n", "    if arr.strides[-1] != arr.itemsize:\n        arr = np.ascontiguousarray(arr)\n", r"C16\.swv.*element_offset"),
     ("swv-step-zero-ok", "c16_swv", "nnet/layers/utils.py", "if not all(isinstance(i, Integral) and i > 0 for i in step):", "if not all(isinstance(i, Integral) and i >= 0 for i in step):", r"C16\.swv.*(returns_only_if_accepted|raise_kind)"),
     ("step-assign-not-accumulate", "c01_step", "operation_base.py", "                var._grad += backed_grad", "                var._grad = backed_grad", r"inv_step\.(C01\.acc|C12\.OWNG)"),
     ("step-constants-get-grad", "c01_step", "operation_base.py", "            if var.constant:\n                continue\n", "", r"inv_step\.(C10\.constants_untouched|C01\.has)|C09\.raise"),
@@ -43,6 +45,10 @@ CANARIES = [
     ("step-no-post-process", "c01_step", "operation_base.py", "            backed_grad = self.grad_post_process_fn(backed_grad, var.shape)\n", "", r"inv_step\.(C14\.I1\.shape|C01\.acc)|no_other_exception"),
     ("step-wrong-index", "c01_step", "operation_base.py", "backed_grad = self.backward_var(grad, index, **kwargs)", "backed_grad = self.backward_var(grad, 0, **kwargs)", r"backward_var_receives_index"),
     ("step-skip-swallows-all", "c01_step", "operation_base.py", "            except SkipGradient:\n                continue", "            except Exception:\n                continue", None),
+    ("step-first-input-only", "c01_step", "operation_base.py", "        for index, var in enumerate(self.variables):", "        for index, var in enumerate(self.variables[:1]):", r"backward#loop0\.iterates_over_the_contracted_sequence"),
+    ("step-enumerate-from-one", "c01_step", "operation_base.py", "        for index, var in enumerate(self.variables):", "        for index, var in enumerate(self.variables, 1):", r"iterates_over_the_contracted_sequence|backward_var_receives_index"),
+    ("topo-first-input-only", "c01_topo", "_utils/__init__.py", "        for t_loop in t.creator.variables:", "        for t_loop in t.creator.variables[:1]:", r"iterates_over_the_contracted_sequence"),
+    ("sweep-skips-last", "c14_seed", "tensor_base.py", "            for t in topo_sorted_tensors:\n                t._backward()", "            for t in list(topo_sorted_tensors)[:-1]:\n                t._backward()", r"iterates_over_the_contracted_sequence"),
     ("topo-append-right", "c01_topo", "_utils/__init__.py", "    topo_sorted_tensors.appendleft(t)", "    topo_sorted_tensors.append(t)", r"C01\.topo\.post\.(new_left_of_old|topo)|inv_step"),
     ("topo-no-seen-test", "c01_topo", "_utils/__init__.py", "    if id_ in seen:\n        return\n", "", r"C01\.topo\.post\.(old_positions_kept|distinct)"),
     ("topo-into-constants", "c01_topo", "_utils/__init__.py", "    if t.constant:\n        return\n", "", r"C01\.topo\.(post|callee_requires)\.members_nonconstant|new_members"),
@@ -60,6 +66,86 @@ CANARIES = [
     ("op-wrap-copy", "c_op", "tensor_base.py", "                    cls(var, constant=True, copy=False)\n                    if not isinstance(var, Tensor)", "                    cls(var, constant=True, copy=True)\n                    if not isinstance(var, Tensor)", r"C03\.cast"),
     ("op-no-consumer-record", "c_op", "tensor_base.py", "        for var in tensor_vars:\n            var._ops.add(ref_f)\n", "        for var in tensor_vars[:1]:\n            var._ops.add(ref_f)\n", r"op\.consumer_recorded"),
     ("op-replay-constant-lost", "c_op", "tensor_base.py", "            f.replay_force_constant = constant\n", "            f.replay_force_constant = None\n", r"C04\.base\.replay_info"),
+    # ---- lock primitives (c08_locks) ----------------------------------------------------------------------------------
+    ("lock-count-reset", "c08_locks", "_utils/lock_management.py", "        _array_counter[arr_id] += 1\n", "        _array_counter[arr_id] = 1\n", r"C08\."),
+    ("lock-flag-not-cleared", "c08_locks", "_utils/lock_management.py", "    if arr.flags.writeable is True:\n        arr.flags.writeable = False\n", "", r"C08\."),
+    ("release-decrement-two", "c08_locks", "_utils/lock_management.py", "        _array_counter[arr_id] = num_active_ops - 1", "        _array_counter[arr_id] = num_active_ops - 2", r"C08\."),
+    ("release-ignores-locked-base", "c08_locks", "_utils/lock_management.py", "        if arr.base is not None and arr.base.flags.writeable is False:", "        if False:", r"C08\."),
+    ("tracked-ignores-dead-ref", "c08_locks", "_utils/lock_management.py", "    return arr_id in _array_tracker and _array_tracker[arr_id]() is not None", "    return arr_id in _array_tracker", r"C08\."),
+    # ---- reduce_broadcast (c01_rb) --------------------------------------------------------------------------------------
+    ("rb-keepdims-eq", "c01_rb", "_utils/__init__.py", "if i != var_shape[n])", "if i == var_shape[n])", r"C01\.rb"),
+    ("rb-no-leading-sum", "c01_rb", "_utils/__init__.py", "        grad = grad.sum(axis=tuple(range(grad.ndim - len(var_shape))))\n", "", r"C01\.rb"),
+    ("rb-no-keepdims", "c01_rb", "_utils/__init__.py", "        grad = grad.sum(axis=keepdims, keepdims=True)", "        grad = grad.sum(axis=keepdims)", r"C01\.rb"),
+    # ---- graph primitives (c04_graph) -----------------------------------------------------------------------------------
+    ("reroute-swapped", "c04_graph", "_utils/duplicating_graph.py", "            var_ if var_ is not source else target for var_ in op.variables", "            var_ if var_ is not target else source for var_ in op.variables", r"reroute_ops_through#loop0\.inv_step\.vars"),
+    ("mirror-no-copy", "c04_graph", "_utils/duplicating_graph.py", "    target.__dict__ = source.__dict__.copy()", "    target.__dict__ = source.__dict__", r"C04\.mirror\.dict_is_a_fresh_copy"),
+    ("reroute-first-op-only", "c04_graph", "_utils/duplicating_graph.py", "    for op in source._ops:\n        op = op()", "    for op in list(source._ops)[:1]:\n        op = op()", r"reroute_ops_through#loop0\.iterates_over"),
+    ("copy-shares-grad", "c04_graph", "tensor_base.py", "        copy._grad = np.copy(self._grad) if self._grad is not None else None", "        copy._grad = self._grad", r"C04\.|C12\."),
+    ("copy-constant-ignored", "c04_graph", "tensor_base.py", "            constant=(self.constant if constant is None else constant),\n        )\n        copy._grad", "            constant=self.constant,\n        )\n        copy._grad", r"C04\.|C10\."),
+    # ---- ApplyMask / UnView (c05_ops) -----------------------------------------------------------------------------------
+    ("applymask-not-dropped", "c05_ops", "_utils/duplicating_graph.py", "            return grad * logical_not(self._mask)", "            return grad * self._mask", r"C05\."),
+    ("unview-base-not-zeroed", "c05_ops", "_utils/duplicating_graph.py", "            grad_view *= 0\n", "", r"C05\."),
+    ("unview-base-no-copy", "c05_ops", "_utils/duplicating_graph.py", "        if index == 0:  # compute dℒ/d(base)\n            grad = grad.copy()\n", "        if index == 0:  # compute dℒ/d(base)\n", r"C05\.|C12\."),
+    # ---- clear_graph / null_grad (c07_clear) ----------------------------------------------------------------------------
+    ("clear-keeps-ops", "c07_clear", "tensor_base.py", "        self._view_children.clear()\n        self._ops.clear()\n", "        self._view_children.clear()\n", r"C07\."),
+    ("clear-keeps-creator", "c07_clear", "tensor_base.py", "        self._creator = None  # marks tensor as \"visited\" during graph-traversal\n\n        for var in creator.variables:", "        for var in creator.variables:", r"clear_graph#loop0\.inv_init\.own_cleared|C07\.clear\.creator_dropped_before_recursion"),
+    ("clear-first-input-only", "c07_clear", "tensor_base.py", "        for var in creator.variables:  # type: \"Tensor\"\n            var.clear_graph()", "        for var in creator.variables[:1]:  # type: \"Tensor\"\n            var.clear_graph()", r"clear_graph#loop0\.iterates_over_the_contracted_sequence"),
+    # ---- construction (c10_init, c17_tensor) ----------------------------------------------------------------------------
+    ("resolve-constant-any", "c10_init", "tensor_base.py", "        if isinstance(other, Tensor) and not other.constant:\n            # let subsequent tensor casting infer constant from dtype\n            return None", "        if isinstance(other, Tensor) and not other.constant:\n            # let subsequent tensor casting infer constant from dtype\n            return False", r"C10\."),
+    ("resolve-constant-ignores-flag", "c10_init", "tensor_base.py", "    if constant is not None:\n        return constant\n    for other in others:", "    for other in others:", r"C10\."),
+    # ---- seed (c14_seed) ------------------------------------------------------------------------------------------------
+    ("seed-no-dtype", "c14_seed", "tensor_base.py", "            _grad = asarray(grad, dtype=self.dtype)\n", "            _grad = asarray(grad)\n", r"C14\."),
+    ("seed-ones-not-like", "c14_seed", "tensor_base.py", "            _grad = np.full_like(self.data, fill_value=1.0)\n\n        self._grad = _grad", "            _grad = np.full_like(self.data, fill_value=2.0)\n\n        self._grad = _grad", r"C14\.|C01\."),
+    ("seed-mutual-broadcast-ok", "c14_seed", "tensor_base.py", "                    if _grad.shape != self.shape:\n                        # mutual broadcasting occurred\n                        raise ValueError()\n", "", r"C14\."),
+    ("seed-layout-kept", "c14_seed", "tensor_base.py", "            if _grad.strides != self.data.strides:\n", "            if False:\n", r"C14\.seed.*C06\.layout"),
+    ("seed-layout-empty-not-like-data", "c14_seed", "tensor_base.py", "                _seed, _grad = _grad, np.empty_like(self.data)\n", "                _seed, _grad = _grad, np.empty_like(_grad)\n", r"C14\.seed.*C06\.layout"),
+    ("seed-layout-copy-forgets-values", "c14_seed", "tensor_base.py", "                _grad[...] = _seed\n", "                pass\n", r"C14\.seed.*value_of_g"),
+    ("backward-no-final-clear", "c14_seed", "tensor_base.py", "                t._backward()\n\n        self.clear_graph()", "                t._backward()\n", r"C07\.|C14\.|C01\."),
+    # ---- io (c18_io) ----------------------------------------------------------------------------------------------------
+    ("save-drops-grad", "c18_io", "_io.py", "        np.savez(file, data=tensor.data, grad=tensor.grad)", "        np.savez(file, data=tensor.data)", r"C18\."),
+    ("save-accepts-arrays", "c18_io", "_io.py", "    if not isinstance(tensor, tb.Tensor):", "    if not isinstance(tensor, (tb.Tensor, np.ndarray)):", r"C18\."),
+    ("load-ignores-grad", "c18_io", "_io.py", "    if \"grad\" in loaded:\n        loaded_tensor.backward(loaded[\"grad\"])\n", "", r"C18\."),
+    # ---- kernel forwarding / wrappers / dunders (c03_wrap, c03_wrappers, c11_dunder) ----------------------------------------
+    ("unary-drops-dtype", "c03_wrap", "operation_base.py", "        return self.numpy_ufunc(x1.data, out=out, where=where, dtype=dtype)", "        return self.numpy_ufunc(x1.data, out=out, where=where)", r"C03\."),
+    ("binary-swaps-operands", "c03_wrap", "operation_base.py", "self.numpy_ufunc(x1.data, x2.data,", "self.numpy_ufunc(x2.data, x1.data,", r"C03\."),
+    ("sequential-drops-ddof", "c03_wrap", "operation_base.py", "        if ddof is not _NoValue:\n            kwargs[\"ddof\"] = ddof\n", "", r"C03\."),
+    ("sequential-axis-not-forwarded", "c03_wrap", "operation_base.py", "        out = self.numpy_func(a.data, axis=axis, out=out, **kwargs)", "        out = self.numpy_func(a.data, axis=None, out=out, **kwargs)", r"C03\."),
+    ("var-drops-ddof", "c03_wrappers", "math/sequential/funcs.py", "        Variance,\n        x,\n        op_kwargs={\"axis\": axis, \"keepdims\": keepdims, \"ddof\": ddof},", "        Variance,\n        x,\n        op_kwargs={\"axis\": axis, \"keepdims\": keepdims, \"ddof\": 0},", r"C03\."),
+    ("mean-constant-dropped", "c03_wrappers", "math/sequential/funcs.py", "        Mean, x, op_kwargs={\"axis\": axis, \"keepdims\": keepdims}, constant=constant", "        Mean, x, op_kwargs={\"axis\": axis, \"keepdims\": keepdims}, constant=None", r"C03\.|C10\."),
+    ("rsub-not-reflected", "c11_dunder", "tensor_base.py", "        return self._op(Subtract, other, self)", "        return self._op(Subtract, self, other)", r"C11\."),
+    ("rmatmul-not-reflected", "c11_dunder", "tensor_base.py", "        return self._op(MatMul, other, self)", "        return self._op(MatMul, self, other)", r"C11\."),
+    ("neg-is-pos", "c11_dunder", "tensor_base.py", "        return self._op(Negative, self)", "        return self._op(Positive, self)", r"C11\."),
+    ("isub-not-inplace", "c11_dunder", "tensor_base.py", "        self._in_place_op(Subtract, self, other)\n        return self", "        return self._op(Subtract, self, other)", r"C11\."),
+    # ---- creation functions (c17_tensor) ------------------------------------------------------------------------------------
+    ("astensor-copies", "c17_tensor", "tensor_base.py", "    return tensor(t, dtype=dtype, constant=constant, copy=False, ndmin=0)", "    return tensor(t, dtype=dtype, constant=constant, copy=True, ndmin=0)", r"C17\."),
+    ("tensor-reuse-ignores-dtype", "c17_tensor", "tensor_base.py", "        if (constant is None or arr_like.constant is constant) and (\n            dtype is None or (arr_like.dtype == np.dtype(dtype))\n        ):", "        if (constant is None or arr_like.constant is constant):", r"C17\."),
+    ("tensor-reuse-ignores-constant", "c17_tensor", "tensor_base.py", "        if (constant is None or arr_like.constant is constant) and (", "        if (True) and (", r"C17\.|C10\."),
+    ("asarray-of-tensor-copies", "c17_tensor", "tensor_base.py", "        a = a.data  # faster than passing the tensor directly\n", "        a = a.data.copy()\n", r"C17\."),
+    # ---- untracked paths (c15_untracked) ------------------------------------------------------------------------------------
+    ("backward-ignores-tracking-switch", "c15_untracked", "tensor_base.py", "        if not _track.TRACK_GRAPH:\n            return\n\n        if self.constant:", "        if self.constant:", r"C15\."),
+    ("untracked-op-keeps-creator", "c15_untracked", "tensor_base.py", "                copy=False,\n                _creator=None,\n                _base=None,\n            )", "                copy=False,\n                _creator=f,\n                _base=None,\n            )", r"C15\."),
+    # ---- conv / pool validity (c16_valid) -----------------------------------------------------------------------------------
+    ("conv-accepts-partial-tiling", "c16_valid", "nnet/layers/conv.py", "        if not all(i.is_integer() and i > 0 for i in out_shape):", "        if not all(i > 0 for i in out_shape):", r"C16\.valid\.conv"),
+    ("conv-ignores-padding-in-validity", "c16_valid", "nnet/layers/conv.py", "            x_shape + 2 * padding - ((w_shape - 1) * dilation + 1)", "            x_shape - ((w_shape - 1) * dilation + 1)", r"C16\.valid\.conv"),
+    ("pool-accepts-partial-tiling", "c16_valid", "nnet/layers/pooling.py", "        if not all(i.is_integer() and i > 0 for i in out_shape):", "        if not all(i > 0 for i in out_shape):", r"C16\.valid\.pool"),
+    # ---- _in_place_op failure path (c13_inplace) and dispatch (c11_dispatch) ---------------------------------------------------
+    ("inplace-except-narrowed", "c13_inplace", "tensor_base.py", "        except Exception as e:\n            graph.restore_old_graph()", "        except (ValueError, TypeError) as e:\n            graph.restore_old_graph()", r"C13\.inplace.*restore_old_graph_called_once"),
+    ("inplace-no-restore", "c13_inplace", "tensor_base.py", "            graph.restore_old_graph()\n            self._grad, self._view_grad, self._base = _prior_state", "            self._grad, self._view_grad, self._base = _prior_state", r"C13\.inplace.*restore_old_graph_called_once"),
+    ("inplace-prior-state-lost", "c13_inplace", "tensor_base.py", "            graph.restore_old_graph()\n            self._grad, self._view_grad, self._base = _prior_state\n", "            graph.restore_old_graph()\n", r"C13\.inplace.*prior_grad_view_grad_base_restored"),
+    ("inplace-swallows", "c13_inplace", "tensor_base.py", "            self._grad, self._view_grad, self._base = _prior_state\n            raise e", "            self._grad, self._view_grad, self._base = _prior_state\n            return self", r"C13\.inplace.*exception_propagates"),
+    ("inplace-restore-twice", "c13_inplace", "tensor_base.py", "            graph.restore_old_graph()\n            self._grad,", "            graph.restore_old_graph()\n            graph.restore_old_graph()\n            self._grad,", r"C13\.inplace.*restore_old_graph_called_once"),
+    ("ufunc-dispatch-asarray-const", "c11_dispatch", "tensor_base.py", "        return t.data\n    return t\n", "        return t.data\n    return asarray(t)\n", r"C11\.dispatch.*tensors_unwrapped"),
+    ("ufunc-dispatch-self-only", "c11_dispatch", "tensor_base.py", "            caster = _as_constant_array\n", "            if self.constant is False:\n                raise ValueError()\n            caster = lambda t: t.data if isinstance(t, Tensor) else t\n", r"C11\.dispatch.*nonconstant_operand_rejected"),
+    ("ufunc-dispatch-out-dropped", "c11_dispatch", "tensor_base.py", "            if out is not None:\n                kwargs[\"out\"] = caster(out)\n", "", r"C11\.dispatch.*out_unwrapped"),
+    ("ufunc-dispatch-method-ignored", "c11_dispatch", "tensor_base.py", "            return getattr(ufunc, method)(*(caster(t) for t in inputs), **kwargs)", "            return ufunc(*(caster(t) for t in inputs), **kwargs)", r"C11\.dispatch.*method_forwarded"),
+    ("function-dispatch-kwargs-not-unwrapped", "c11_dispatch", "tensor_base.py", "                    k: (v.data if isinstance(v, Tensor) else v)\n", "                    k: v\n", r"C11\.dispatch\.function.*tensors_unwrapped"),
+    # ---- Tensor.grad getter (c06_getter) -----------------------------------------------------------------------------------------
+    ("getter-cache-never-invalidated", "c06_getter", "tensor_base.py", "            and self._view_grad.base is self._base._grad\n", "", r"C06\.getter\.view\.window_onto_current_base_gradient"),
+    ("getter-none-is-none", "c06_getter", "tensor_base.py", "            and self._base._grad is not None\n", "", r"C06\.getter\.view\.window_onto_current_base_gradient"),
+    ("getter-replay-with-tracking", "c06_getter", "tensor_base.py", "        with _track.no_autodiff:\n            self._view_grad = self._replay_op(grad).data if grad is not None else None", "        if True:\n            self._view_grad = self._replay_op(grad).data if grad is not None else None", r"C06\.getter\.view\.replayed_without_graph_tracking"),
+    ("getter-not-cached", "c06_getter", "tensor_base.py", "            self._view_grad = self._replay_op(grad).data if grad is not None else None\n        return self._view_grad", "            vg = self._replay_op(grad).data if grad is not None else None\n        return vg", r"C06\.getter\.view\.result_is_replayed_data_and_cached"),
+    ("getter-window-onto-own-grad", "c06_getter", "tensor_base.py", "        grad = view_parent.grad\n", "        grad = view_parent._grad\n", r"C06\.getter\.view\.(replay_on_parents_gradient|window_onto)"),
+    ("getter-owner-returns-cache", "c06_getter", "tensor_base.py", "        if self._base is None:\n            return self._grad\n\n        if (", "        if self._base is None:\n            return self._view_grad\n\n        if (", r"C06\.getter\.owner\.returns_own_grad"),
     ("ctx-exit-no-dec", "c15_ctx", "_utils/__init__.py", "        self._depth -= 1\n        self.state = self._depth_tracker.pop(self._depth)", "        self.state = self._depth_tracker.pop(self._depth - 1)", r"C15\.ctx\..*__exit__\.depth"),
     ("ctx-enter-order", "c15_ctx", "_utils/__init__.py", "        self._depth_tracker[self._depth] = self.state\n        self._depth += 1\n        self.state = self._enter_set_value", "        self._depth += 1\n        self.state = self._enter_set_value\n        self._depth_tracker[self._depth - 1] = self.state", r"C15\.ctx\..*__enter__\.saved"),
     ("ctx-exit-swallow", "c15_ctx", "_utils/__init__.py", "        self.state = self._depth_tracker.pop(self._depth)\n", "        self.state = self._depth_tracker.pop(self._depth)\n        return True\n", r"C15\.ctx\..*(returns_falsy|exception_propagates)"),
@@ -87,38 +173,46 @@ def run_contract_module(modname, repo_root, timeout=600):
     return json.loads(lines[-1])
 
 
-def run_canaries(only_modules=None, ids=None):
-    """Returns list of dicts(id, killed, expected, red)"""
+def _one(args):
+    cid, modname, rel, old, new, expect, repo, tmp, baseline = args
+    root = os.path.join(tmp, cid)
+    try:
+        shutil.copytree(os.path.join(repo, "src"), os.path.join(root, "src"))
+        path = os.path.join(root, "src", "mygrad", rel)
+        src = open(path).read()
+        if old not in src:
+            return dict(id=cid, module=modname, killed=None, note="pattern not found in current source (source changed); canary skipped")
+        open(path, "w").write(src.replace(old, new, 1))
+        r = run_contract_module(modname, root)
+        # only obligations that are discharged on the unmodified source count (known findings are red on both sides)
+        red = [n for n, s in r["status"] if s != "discharged" and n not in baseline]
+        if expect is None:
+            return dict(id=cid, module=modname, killed=(not red), expected="stays green (harmless edit)", red=red[:5])
+        hit = [n for n in red if re.search(expect, n)]
+        return dict(id=cid, module=modname, killed=bool(hit), expected=expect, red=red[:5], n_red=len(red), unsupported=r["unsupported"][:3])
+    except Exception as e:
+        return dict(id=cid, module=modname, killed=None, note=str(e)[:300])
+    finally:
+        shutil.rmtree(root, ignore_errors=True)
+
+
+def run_canaries(only_modules=None, ids=None, jobs=4):
+    """Returns list of dicts(id, killed, expected, red).  Scratch copies live under a temp dir and are removed."""
+    from concurrent.futures import ThreadPoolExecutor
+
     repo = os.environ.get("MYGRAD_REPO", "/repo")
-    out = []
+    todo = [c for c in CANARIES if (not only_modules or c[1] in only_modules) and (not ids or c[0] in ids)]
     tmp = tempfile.mkdtemp(prefix="mygrad-verif-canary-")
     try:
-        for (cid, modname, rel, old, new, expect) in CANARIES:
-            if only_modules and modname not in only_modules:
-                continue
-            if ids and cid not in ids:
-                continue
-            root = os.path.join(tmp, cid)
-            shutil.copytree(os.path.join(repo, "src"), os.path.join(root, "src"))
-            path = os.path.join(root, "src", "mygrad", rel)
-            src = open(path).read()
-            if old not in src:
-                out.append(dict(id=cid, killed=None, note="pattern not found in current source (source changed); canary skipped"))
-                shutil.rmtree(root)
-                continue
-            open(path, "w").write(src.replace(old, new, 1))
+        base = {}
+        for modname in sorted({c[1] for c in todo}):
             try:
-                r = run_contract_module(modname, root)
-                red = [n for n, s in r["status"] if s != "discharged"]
-                red_unsup = r["unsupported"]
-                if expect is None:
-                    out.append(dict(id=cid, killed=(not red), expected="stays green (harmless edit)", red=red[:5]))
-                else:
-                    hit = [n for n in red if re.search(expect, n)]
-                    out.append(dict(id=cid, killed=bool(hit), expected=expect, red=red[:5], unsupported=red_unsup[:3]))
-            except Exception as e:
-                out.append(dict(id=cid, killed=None, note=str(e)[:300]))
-            shutil.rmtree(root)
+                r = run_contract_module(modname, repo)
+                base[modname] = {n for n, s in r["status"] if s != "discharged"}
+            except Exception:
+                base[modname] = set()
+        with ThreadPoolExecutor(max_workers=jobs) as ex:
+            out = list(ex.map(_one, [c + (repo, tmp, base[c[1]]) for c in todo]))
     finally:
         shutil.rmtree(tmp, ignore_errors=True)
     return out
@@ -126,5 +220,7 @@ def run_canaries(only_modules=None, ids=None):
 
 if __name__ == "__main__":
     mods = sys.argv[1:] or None
-    for r in run_canaries(mods):
+    res = run_canaries(mods)
+    for r in res:
         print(json.dumps(r))
+    print(f"canaries: {sum(1 for r in res if r['killed'])} behaved as expected, {sum(1 for r in res if r['killed'] is False)} did not, {sum(1 for r in res if r['killed'] is None)} skipped")
